@@ -9,11 +9,42 @@ import time
 KANI_FLAGS = ["-Z", "function-contracts", "-Z", "stubbing", "-Z", "unstable-options"]
 
 
-def _run_group(cmd, cwd, timeout, env=None, log=None):
-    """Run in own process group; kill the group on timeout (cbmc would be orphaned otherwise)."""
+def _rss_watchdog(sid, cap_gb, stop):
+    """Kill any cbmc process of our session whose resident set exceeds cap_gb (RLIMIT_AS cannot be
+    used: it makes the kani compiler hang). Kani reports the harness as not completed => undecided."""
+    page = os.sysconf("SC_PAGE_SIZE")
+    while not stop.wait(5.0):
+        try:
+            for pid in os.listdir("/proc"):
+                if not pid.isdigit():
+                    continue
+                try:
+                    with open(f"/proc/{pid}/stat") as f:
+                        st = f.read()
+                    rp = st.rfind(")")
+                    comm = st[st.find("(") + 1:rp]
+                    fields = st[rp + 2:].split()
+                    if comm != "cbmc" or int(fields[3]) != sid:   # fields[3] = session id
+                        continue
+                    rss = int(fields[21]) * page
+                    if rss > cap_gb * (1 << 30):
+                        os.kill(int(pid), signal.SIGKILL)
+                except (OSError, ValueError, IndexError):
+                    continue
+        except OSError:
+            pass
+
+
+def _run_group(cmd, cwd, timeout, env=None, log=None, mem_gb=None):
+    """Run in own session; kill the whole session on timeout (cbmc would be orphaned otherwise).
+    mem_gb: resident-set cap per cbmc process, enforced by a watchdog thread."""
+    import threading
     t0 = time.time()
     p = subprocess.Popen(cmd, cwd=cwd, stdout=subprocess.PIPE, stderr=subprocess.STDOUT, text=True,
                          start_new_session=True, env=env)
+    stop = threading.Event()
+    if mem_gb:
+        threading.Thread(target=_rss_watchdog, args=(p.pid, mem_gb, stop), daemon=True).start()
     try:
         out, _ = p.communicate(timeout=timeout)
         to = False
@@ -24,6 +55,7 @@ def _run_group(cmd, cwd, timeout, env=None, log=None):
             pass
         out, _ = p.communicate()
         to = True
+    stop.set()
     if log:
         with open(log, "a") as f:
             f.write("$ " + " ".join(cmd) + "\n" + (out or "") + "\n")
@@ -54,7 +86,8 @@ def run_harnesses(unit, scratch, harnesses, jobs=8, log=None, extra_flags=()):
     # wall budget: build + all harness timeouts can overlap thanks to -j
     waves = (len(harnesses) + jobs - 1) // jobs
     wall = 600 + maxto * waves + 60
-    rc, out, timed_out, dt = _run_group(cmd, scratch, wall, env=kani_env(), log=log)
+    rc, out, timed_out, dt = _run_group(cmd, scratch, wall, env=kani_env(), log=log,
+                                        mem_gb=unit.get("mem_gb", float(os.environ.get("VERIF_MEM_GB", "10"))))
     recs = {}
     for h in harnesses:
         recs[h["name"]] = {"harness": h["name"], "obligation": h["obligation"], "kind": h.get("kind", "complete"),
